@@ -15,7 +15,7 @@ use std::collections::BTreeMap;
 use tree_sitter_graph::ParseError;
 
 const PIECES: &[&str] = &["a", "b", "é", "ab", "ba", "[ab]", "[^a]", "(a)", "(b)?", "(a|b)", "a+", "b*", "(é|a)+", ".", "\\d", "(x)?", "/", "(a)(b)?", "[a-c]+", "(?:ab)+", "é+", "(b|)", "a?"];
-const ALPHABET: &[&str] = &["a", "b", "é", "x", "/", "1", "ab", "日"];
+const ALPHABET: &[&str] = &["a", "b", "é", "x", "/", "1", "ab", "日", "\n"];
 
 fn gen_regex(t: &mut Tape) -> String {
     let seq = |t: &mut Tape| -> String {
